@@ -658,6 +658,11 @@ impl Serialize for Cmap12<'_> {
         _plan: &Plan,
         cp_to_new_gid_list: &[(u32, GlyphId)],
     ) -> Result<(), SerializeErrorFlags> {
+        // nothing to map: write no subtable, the caller drops the record
+        if cp_to_new_gid_list.is_empty() {
+            return Ok(());
+        }
+
         let init_pos = s.length();
         //copy header format
         s.embed(self.format())?;
@@ -1095,8 +1100,17 @@ impl CollectUnicodes for Cmap12<'_> {
             let mut end = group.end_char_code().min(UNICODE_MAX);
             let mut gid = group.start_glyph_id();
             if gid == 0 {
-                start += 1;
+                // the first character maps to .notdef, skip it
+                let Some(next) = start.checked_add(1) else {
+                    continue;
+                };
+                start = next;
                 gid += 1;
+            }
+
+            // nothing (left) in this group, or a malformed group
+            if start > end {
+                continue;
             }
 
             if gid as usize >= num_glyphs {
